@@ -1139,6 +1139,7 @@ impl Matcher {
                             error!(sub_id = %self.id, "could not handle change: {e}");
                             return;
                         }
+                        vh::flushed(self.id, flush_gen);
                         vh::SUBS_FLUSHED.fetch_add(1, std::sync::atomic::Ordering::SeqCst);
                         continue;
                     }
